@@ -38,6 +38,10 @@ def SErr.code : SErr → Nat
   | .bodyExpected => 4 | .bodyUnexpected => 4 | .deserialize => 4
   | .execution => 5
 
+/-- `StructError::code` by variant, in declaration order (InvalidPath, InvalidSubpath, BodyExpected,
+BodyUnexpected, Serialize, Deserialize, Execution) – what a hand-written `RepeStruct` can return. -/
+def structErrorCodes : List Nat := [6, 6, 4, 4, 4, 4, 5]
+
 /-- What a request turned out to address. `path` is the list of tokens walked. -/
 inductive Access where
   | readWhole (path : List Str)
